@@ -539,4 +539,166 @@ theorem focusGood_handleCommand (o : Oracle) (hno : NoRefocusOnOut o) (fuel : Na
     simp only [handleCommand]
     rw [foldl_nofocus _ o _ hnf s]
 
+
+/-! ### hit testing -/
+
+theorem underL_none (x y : Int) (px py : Int) :
+    (l : List Kid) → (l.all fun k => !inRect (x + k.1) (y + k.2.1) k.2.2.2.w k.2.2.2.h px py) = true →
+      underL x y l px py = []
+  | [], _ => by simp [underL]
+  | (oc, or_, z, t) :: rest, h => by
+    simp only [List.all_cons, Bool.and_eq_true, Bool.not_eq_true'] at h
+    simp only [underL, h.1]
+    simpa using underL_none x y px py rest h.2
+
+mutual
+theorem under_eq_descend (px py : Int) : (t : STree) → (x y : Int) → noOverlapAt x y t px py = true →
+    under x y t px py = descend x y t px py
+  | .node i w h ch, x, y, hn => by
+    simp only [noOverlapAt] at hn
+    simp only [under, descend]
+    rw [underL_eq_descendL px py ch x y hn]
+theorem underL_eq_descendL (px py : Int) : (l : List Kid) → (x y : Int) → noOverlapAtL x y l px py = true →
+    underL x y l px py = descendL x y l px py
+  | [], _, _, _ => by simp [underL, descendL]
+  | (oc, or_, z, t) :: rest, x, y, hn => by
+    simp only [noOverlapAtL] at hn
+    simp only [underL, descendL]
+    by_cases hin : inRect (x + oc) (y + or_) t.w t.h px py = true
+    · rw [if_pos hin] at hn
+      simp only [Bool.and_eq_true] at hn
+      rw [if_pos hin, if_pos hin, underL_none x y px py rest hn.2, List.append_nil]
+      exact under_eq_descend px py t _ _ hn.1
+    · rw [if_neg hin] at hn
+      rw [if_neg hin, if_neg hin, List.nil_append]
+      exact underL_eq_descendL px py rest x y hn
+end
+
+theorem u16_local (col oc : Int) (w : Nat) (_h0 : 0 ≤ col) (_h1 : col < 65536) (hw : w < 65536)
+    (ha : oc ≤ col) (hb : col < oc + (w : Int)) : u16 (col - u16 oc) = col - oc := by
+  unfold u16
+  omega
+
+mutual
+theorem hitTest_eq_under (px py : Int) : (t : STree) → (x y : Int) → sizesOk t = true →
+    0 ≤ px - x → px - x < 65536 → 0 ≤ py - y → py - y < 65536 →
+    hitTest t (px - x) (py - y) = under x y t px py
+  | .node i w h ch, x, y, hs, a, b, c, d => by
+    simp only [sizesOk, Bool.and_eq_true] at hs
+    simp only [hitTest, under]
+    rw [hitKids_eq_underL px py ch x y hs.2 a b c d]
+theorem hitKids_eq_underL (px py : Int) : (l : List Kid) → (x y : Int) → sizesOkL l = true →
+    0 ≤ px - x → px - x < 65536 → 0 ≤ py - y → py - y < 65536 →
+    hitKids l (px - x) (py - y) = underL x y l px py
+  | [], _, _, _, _, _, _, _ => by simp [hitKids, underL]
+  | (oc, or_, z, t) :: rest, x, y, hs, a, b, c, d => by
+    simp only [sizesOkL, Bool.and_eq_true] at hs
+    simp only [hitKids, underL]
+    rw [hitKids_eq_underL px py rest x y hs.2 a b c d]
+    have hcp : containsPoint oc or_ t.w t.h (px - x) (py - y) = inRect (x + oc) (y + or_) t.w t.h px py := by
+      simp only [containsPoint, inRect]
+      have e1 : decide (px - x ≥ oc) = decide (x + oc ≤ px) := by apply decide_eq_decide.mpr; omega
+      have e2 : decide (px - x < oc + (t.w : Int)) = decide (px < x + oc + (t.w : Int)) := by
+        apply decide_eq_decide.mpr; omega
+      have e3 : decide (py - y ≥ or_) = decide (y + or_ ≤ py) := by apply decide_eq_decide.mpr; omega
+      have e4 : decide (py - y < or_ + (t.h : Int)) = decide (py < y + or_ + (t.h : Int)) := by
+        apply decide_eq_decide.mpr; omega
+      rw [e1, e2, e3, e4]
+    rw [hcp]
+    by_cases hin : inRect (x + oc) (y + or_) t.w t.h px py = true
+    · rw [if_pos hin, if_pos hin]
+      simp only [inRect, Bool.and_eq_true, decide_eq_true_eq] at hin
+      obtain ⟨⟨⟨i1, i2⟩, i3⟩, i4⟩ := hin
+      have hsz : sizesOk t = true := hs.1
+      have hw : t.w < 65536 ∧ t.h < 65536 := by
+        cases t with
+        | node i w h ch =>
+          simp only [sizesOk, Bool.and_eq_true, decide_eq_true_eq] at hsz
+          exact ⟨hsz.1.1, hsz.1.2⟩
+      have l1 : u16 (px - x - u16 oc) = px - (x + oc) := by
+        rw [u16_local (px - x) oc t.w a b hw.1 (by omega) (by omega)]; omega
+      have l2 : u16 (py - y - u16 or_) = py - (y + or_) := by
+        rw [u16_local (py - y) or_ t.h c d hw.2 (by omega) (by omega)]; omega
+      rw [l1, l2]
+      rw [hitTest_eq_under px py t (x + oc) (y + or_) hsz (by omega) (by omega) (by omega) (by omega)]
+    · rw [if_neg hin, if_neg hin]
+end
+
+theorem hitsAt_eq_underRoot (t : STree) (hs : sizesOk t = true) (col row : Int) :
+    hitsAt t col row = underRoot t col row := by
+  have hw : t.w < 65536 ∧ t.h < 65536 := by
+    cases t with
+    | node i w h ch =>
+      simp only [sizesOk, Bool.and_eq_true, decide_eq_true_eq] at hs
+      exact ⟨hs.1.1, hs.1.2⟩
+  simp only [hitsAt, underRoot]
+  have hcp : containsPoint 0 0 t.w t.h col row = inRect 0 0 t.w t.h col row := by
+    simp [containsPoint, inRect]
+  rw [hcp]
+  by_cases hin : inRect 0 0 t.w t.h col row = true
+  · rw [if_pos hin, if_pos hin]
+    simp only [inRect, Bool.and_eq_true, decide_eq_true_eq] at hin
+    obtain ⟨⟨⟨i1, i2⟩, i3⟩, i4⟩ := hin
+    have e1 : u16 col = col - 0 := by unfold u16; omega
+    have e2 : u16 row = row - 0 := by unfold u16; omega
+    rw [e1, e2]
+    exact hitTest_eq_under col row t 0 0 hs (by omega) (by omega) (by omega) (by omega)
+  · rw [if_neg hin, if_neg hin]
+
+/-! ### commands: what each atom contributes to the trace -/
+
+/-- The stretch of trace belonging to one atom. -/
+def AtomSeg (a : Atom) (seg : List Entry) : Prop :=
+  match a with
+  | .focus w => seg = [] ∨ ∃ f t1 t2, seg = .call f .focusOut .target ::
+      (t1 ++ .eff (.focusSet w) :: .call w .focusIn .target :: t2)
+  | a => ∃ e, effOfAtom a = some e ∧ seg = [.eff e]
+
+theorem atomSeg_execAtom (o : Oracle) (hc : St → Cmd → St)
+    (hhc : ∀ s c, ∃ t, (hc s c).trace = s.trace ++ t) (s : St) (a : Atom) :
+    ∃ seg, (execAtom hc o s a).trace = s.trace ++ seg ∧ AtomSeg a seg := by
+  cases a with
+  | redraw => exact ⟨[.eff .redraw], rfl, _, rfl, rfl⟩
+  | refresh => exact ⟨[.eff .refresh], rfl, _, rfl, rfl⟩
+  | quit => exact ⟨[.eff .quit], rfl, _, rfl, rfl⟩
+  | consume => exact ⟨[.eff .consume], rfl, _, rfl, rfl⟩
+  | debug => exact ⟨[.eff .debug], rfl, _, rfl, rfl⟩
+  | other k => exact ⟨[.eff (.other k)], rfl, _, rfl, rfl⟩
+  | focus w =>
+    simp only [execAtom, focusWidgetWith]
+    split
+    · exact ⟨[], by simp, Or.inl rfl⟩
+    · obtain ⟨t1, ht1⟩ := hhc (Model.Vxfw.call o s s.focused .focusOut .target).1
+        (Model.Vxfw.call o s s.focused .focusOut .target).2
+      generalize hc (Model.Vxfw.call o s s.focused .focusOut .target).1
+        (Model.Vxfw.call o s s.focused .focusOut .target).2 = s2 at ht1 ⊢
+      have htr1 : (Model.Vxfw.call o s s.focused .focusOut .target).1.trace =
+          s.trace ++ [.call s.focused .focusOut .target] := rfl
+      rw [htr1] at ht1
+      obtain ⟨t2, ht2⟩ := hhc
+        (Model.Vxfw.call o { s2 with focused := w, trace := s2.trace ++ [.eff (.focusSet w)] } w .focusIn .target).1
+        (Model.Vxfw.call o { s2 with focused := w, trace := s2.trace ++ [.eff (.focusSet w)] } w .focusIn .target).2
+      refine ⟨_, ?_, Or.inr ⟨s.focused, t1, t2, rfl⟩⟩
+      rw [ht2]
+      simp [Model.Vxfw.call, ht1]
+
+/-- One stretch per atom, in order. -/
+inductive SegsOf : List Atom → List (List Entry) → Prop
+  | nil : SegsOf [] []
+  | cons {a : Atom} {seg : List Entry} {l : List Atom} {segs : List (List Entry)} :
+      AtomSeg a seg → SegsOf l segs → SegsOf (a :: l) (seg :: segs)
+
+theorem atomSeg_foldl (o : Oracle) (hc : St → Cmd → St)
+    (hhc : ∀ s c, ∃ t, (hc s c).trace = s.trace ++ t) (l : List Atom) (s : St) :
+    ∃ segs : List (List Entry), (l.foldl (execAtom hc o) s).trace = s.trace ++ segs.flatten ∧
+      SegsOf l segs := by
+  induction l generalizing s with
+  | nil => exact ⟨[], by simp, SegsOf.nil⟩
+  | cons a r ih =>
+    obtain ⟨seg, hseg, ha⟩ := atomSeg_execAtom o hc hhc s a
+    obtain ⟨segs, hsegs, hr⟩ := ih (execAtom hc o s a)
+    refine ⟨seg :: segs, ?_, SegsOf.cons ha hr⟩
+    rw [List.foldl_cons, hsegs, hseg]
+    simp
+
 end VaxisModel.Lemmas.Vxfw
